@@ -34,6 +34,8 @@ pub(crate) struct AssocFileData {
     source_name: Arc<PathBuf>,
     exports: RefCell<Option<Export>>,
     files: FileManager,
+    /// How many classes of each name this file has declared so far (see `internal_class_name`)
+    class_names: RefCell<HashMap<String, usize>>,
 }
 
 #[derive(Debug, PartialEq, Clone)]
@@ -76,6 +78,22 @@ impl AssocFileData {
             source_name: Arc::new(destination.with_extension("ms").to_path_buf()),
             files: files_loaded,
             exports: RefCell::default(),
+            class_names: RefCell::default(),
+        }
+    }
+
+    /// The name under which a class and its functions are compiled. A file may declare
+    /// several classes of one name (in different functions); the compiled functions of a
+    /// file are keyed by name, so every class after the first gets a suffix.
+    pub fn internal_class_name(&self, declared_name: &str) -> String {
+        let mut class_names = self.class_names.borrow_mut();
+        let count = class_names.entry(declared_name.to_owned()).or_insert(0);
+        *count += 1;
+
+        if *count == 1 {
+            declared_name.to_owned()
+        } else {
+            format!("{declared_name}~{count}")
         }
     }
 
